@@ -717,7 +717,7 @@ def corpus():
 
 # ----------------------------------------------------------------- the check
 def run(ck: common.Check):
-    ck.prove(["GeffProps.C17", "GeffProps.C17Links", "GeffProps.C17Cli"])
+    ck.prove(["GeffProps.C17", "GeffProps.C17Links", "GeffProps.C17Cli", "GeffProps.C17Gen"])
     ck.rule = ("cases = corpus + one-property stores for every trailing shape over {1,2} up to rank 4 x N in {0,1,2,5} x "
                "missing {none, all false, some} x {int64,float64,bool,str} (all in thorough, a seeded half in quick) + "
                "string properties re-created as variable-length UTF8 strings with the raw zarr API (N,E in {0,1,2,5} x rank 1-3 x "
